@@ -828,6 +828,9 @@ func (e *Engine) logFromSig(st *State, name string) *CallLog {
 			for _, p := range bodyOf(callee).Params {
 				args = append(args, e.zeroVal(resolve(p.Type(), cenv)))
 			}
+			for i := 0; i < e.numRootLoops(); i++ {
+				args = append(args, mkInt(IntLit(-1)))
+			}
 			return e.getLog(st, name, args)
 		}
 		return nil
@@ -847,6 +850,7 @@ func (e *Engine) logFromSig(st *State, name string) *CallLog {
 // instructions
 
 func (e *Engine) runInstrs(st *State, fr *Frame, b *ssa.BasicBlock, pred *ssa.BasicBlock, from int) {
+	fr.cur = b
 	if pred != nil && from == 0 {
 		e.evalPhis(st, fr, b, pred)
 		from = countPhis(b)
